@@ -2,8 +2,11 @@
 
    Model: every while-loop of the expansion code is a fuelled loop returning the distinguished result RFuel
    when the fuel runs out; the theorems give explicit fuel bounds in terms of max_nodes N = 3^n.
-   PARTIAL: loops inside symbolic_attractor_test and the simulation minification are not modelled; they are
-   covered by the watchdog and the back-edge budget of the run (see finding 2159c02, fixed).
+   symbolic_test_terminates bounds the interleaved reachability of symbolic_attractor_test (with the progress
+   fix 2159c02) for every heuristic tape; noforce_can_stall is the formal record of the repaired defect: without
+   the fix a tape that always declines makes the loop run forever on a 3-variable network.
+   PARTIAL: the simulation minification loops and the block / SCC strategies are bounded by the back-edge budget
+   and the watchdog of the run only.
 
    This file contains only restatements closed by `exact` (statements produced by Coq's own
    `Check` of the library lemma) plus non-vacuity Examples, each followed by Print Assumptions. *)
@@ -11,7 +14,7 @@ From Coq Require Import List Bool Arith NArith Lia Relations Permutation.
 Import ListNotations.
 From BB Require Import BN Brute SpaceFacts TrapFacts PercolateFacts AttractorFacts Diagram Invariants Checks Filter
   Strict PetriNet Control Meta FilterFacts PetriNetFacts TrappistFacts DiagramStruct DiagramSem1 DiagramCache
-  DiagramDepth DiagramComplete Termination ControlFacts MetaFacts Candidates StrictFacts MinExpandFacts CandidatesFacts.
+  DiagramDepth DiagramComplete Termination ControlFacts MetaFacts Candidates StrictFacts MinExpandFacts CandidatesFacts SymbolicTest SymbolicTestFacts.
 
 Theorem C13_size_bound : forall (N : net) (d : sd), SWF N d -> size d <= max_nodes N.
 Proof. exact size_bound. Qed.
@@ -45,6 +48,16 @@ Proof. exact strict_loop_fuel_enough. Qed.
 Theorem C13_reach_list_complete : forall (N : net) (s t : state), wf_state N s -> reach N s t -> In t (reach_list N s).
 Proof. exact reach_list_complete. Qed.
 
+Theorem C13_symbolic_test_terminates : forall (fuel : nat) (N : net) (S : space) (pivot : state) (avoid : list state) (bools : list bool) (orders : list (list nat)), trap_space N S -> in_space pivot S = true -> (forall a : state, In a avoid -> in_space a S = true) -> NoDup avoid -> symbolic_test_fuel S <= fuel -> symbolic_test fuel N S pivot avoid bools orders <> TFuel.
+Proof. exact symbolic_test_terminates. Qed.
+
+(* defect D6, formally *)
+Theorem C13_unfixed_loop_can_stall : exists (N : net) (S : space) (pivot : state) (avoid : list state), forall fuel : nat, main_loop_noforce fuel N (states_of S) {| t_reach := [pivot]; t_avoid := Some avoid; t_sat := []; t_rest := rev (free_vars S); t_bools := [] |} [] = TFuel.
+Proof. exact noforce_can_stall. Qed.
+
+Theorem C13_fixed_loop_answers_on_that_instance : symbolic_test 5 stall_net stall_space stall_pivot stall_avoid [] [] = TSome [[false; false; false]; [true; false; false]; [true; true; false]; [false; true; false]].
+Proof. exact stall_fixed_answer. Qed.
+
 Print Assumptions C13_size_bound.
 Print Assumptions C13_bfs_terminates.
 Print Assumptions C13_dfs_terminates.
@@ -55,3 +68,6 @@ Print Assumptions C13_run_terminates.
 Print Assumptions C13_raise_depth_fuel_irrelevant.
 Print Assumptions C13_strict_loop_fuel_enough.
 Print Assumptions C13_reach_list_complete.
+Print Assumptions C13_symbolic_test_terminates.
+Print Assumptions C13_unfixed_loop_can_stall.
+Print Assumptions C13_fixed_loop_answers_on_that_instance.
